@@ -43,6 +43,9 @@ class Executor(Evaluator):
             for i, g in enumerate(goal.children()):
                 self.oblige(st, g, '%s.c%d' % (name, i + 1), kind, extra_hyps, line)
             return
+        notes = getattr(st, 'notes', None)
+        if notes and kind in ('loop-invariant', 'postcondition', 'effect-refinement', 'frame') and '[' not in name:
+            name = '%s[%s]' % (name, ','.join(dict.fromkeys(notes)))      # path tag: which handled exceptions this path went through
         self.obls.append(Obligation(name, list(st.pc) + list(extra_hyps), goal, kind, self.frames[0].qualname if self.frames else '?',
                                     line, apps=list(st.apps) + list(self.spec_apps)))
 
@@ -249,6 +252,14 @@ class Executor(Evaluator):
             ann_ty = self.W.type_of_hint(hint)
         except Exception:
             ann_ty = None
+        if isinstance(s.value, ast.Call) and isinstance(s.value.func, ast.Name) and s.value.func.id == 'set' and not s.value.args and isinstance(ann_ty, TSet):
+            s2, r = self.new_ref(st, 3)
+            hk = s2.heap.set_has_key(ann_ty.k)
+            a = s2.heap.get(hk)[0]
+            s2.heap.set(hk, [z3.Store(a, r, z3.K(ann_ty.k.comps()[0], z3.BoolVal(False)))])
+            sk = s2.heap.set_size_key()
+            s2.heap.set(sk, [z3.Store(s2.heap.get(sk)[0], r, 0)])
+            return [Outcome('normal', x) for x in self.assign(s.target, SV(ann_ty, [r]), s2)]
         if isinstance(s.value, (ast.List, ast.Dict)) and ann_ty is not None:
             s.value._elem_ty = getattr(ann_ty, 'elem', None)
             s.value._dict_ty = ann_ty if isinstance(ann_ty, TDict) else None
@@ -437,6 +448,7 @@ class Executor(Evaluator):
                         classes = (t.py.obj,)
                 if issubclass(o.val.cls, classes):
                     s2 = o.st.copy()
+                    s2.notes = list(s2.notes) + ['%s-from-%s-handled' % (o.val.cls.__name__, o.val.origin or 'here')]
                     if h.name:
                         s2.locals[h.name] = SV(TExc(o.val.cls), o.val.msg.t)
                     outs += self.ex_block(h.body, s2)
@@ -580,7 +592,7 @@ class Executor(Evaluator):
         allowed = {}      # key -> list of allowed refs, or None for 'anything'
         preds = {}        # key -> list of predicates on refs that grant permission
         if has_effects:
-            for g in ('trace', 'shown', 'ui', 'ext'):
+            for g in ('trace', 'shown', 'ui', 'ext', 'counts', 'input'):
                 for n in trace.GROUPS[g]:
                     allowed[('g', n)] = None      # checked exactly by the effect-refinement obligations
         cx = SpecCtx(env0, h0, env0, h0, st, self.frame)
@@ -847,6 +859,19 @@ class Executor(Evaluator):
         recv = fv.py.recv
         if isinstance(obj, tuple) and obj[0] == 'method':
             return bm.call_method(self, recv, obj[1], args, kwargs, st)
+        if isinstance(obj, tuple) and obj[0] == 'extmethod':
+            q = '%s.%s.%s' % (obj[1].__module__, obj[1].__qualname__, obj[2])
+            c = contracts.REG.get(q)
+            if c is None:
+                raise Unsupported('external method %s without an assumed contract' % q)
+            if not hasattr(c, '_dummy'):
+                ns = {}
+                exec('def extmethod(self%s): pass' % ''.join(', ' + n for n in c.types_d), ns)
+                c._dummy = ns['extmethod']
+                c._dummy.__module__ = obj[1].__module__
+                c._dummy.__qualname__ = obj[1].__qualname__ + '.' + obj[2]
+                c.types_d = dict({'self': 'Obj(%r)' % (obj[1].__module__ + '.' + obj[1].__qualname__)}, **c.types_d)
+            return self.apply_contract(c._dummy, c, self.bind_args(c._dummy, recv, args, kwargs), st)
         if isinstance(obj, tuple) and obj[0] == 'fieldcall':
             c = contracts.REG.get('field:' + obj[1])
             if c is None:
@@ -1068,7 +1093,26 @@ class Executor(Evaluator):
                 bad = bad.copy()
                 if not c.raise_keeps_heap:
                     self.havoc_modifies(c, env, bad, pre_heap)
-                self.exc_out.append(Outcome('raise', bad, ExcVal(ecls)))
+                    if c.effects or c.raise_effects:
+                        saved = bad.locals
+                        bad.locals = dict(env)
+                        self.frames.append(self.make_effect_frame(fn, c))
+                        try:
+                            bads = self.run_ghost(list(c.effects) + list(c.raise_effects), bad)
+                        finally:
+                            self.frames.pop()
+                        bad = bads[0]
+                        bad.locals = dict(saved)
+                if c.raise_ensures_l:
+                    cxr = SpecCtx(env, bad.heap, env, pre_heap, bad, cfr)
+                    for _nm, _tx in c.raise_ensures_l:
+                        bad.pc.append(self.S.eval_bool(_tx, cxr))
+                    bad.pc += cxr.facts
+                mtext = c.raise_msgs.get(exc)
+                mval = self.S.eval(mtext, SpecCtx(env, pre_heap, env, pre_heap, bad, cfr)) if mtext else None
+                ev_ = ExcVal(ecls, mval)
+                ev_.origin = short
+                self.exc_out.append(Outcome('raise', bad, ev_))
         if not self.feasible(normal.pc):
             return out
         # 3. normal exit
